@@ -332,7 +332,14 @@ for v in ck.violations:
         v['native'] = rep
         v['replayed'] = _concrete_violation(w, rep)
     else:
-        rep = Replay.call({'op': 'wait_graph_step', **w})
+        extra = {}
+        if w.get('graph_op') == 'detect_cycles':
+            extra['expect'] = has_cycle([tuple(e) for e in w['edges']], GN)
+        elif w.get('graph_op') == 'would_create_cycle':
+            R_ = reach([tuple(e) for e in w['edges']], GN)
+            ix = {n: i for i, n in enumerate(w['nodes'])}
+            extra['expect'] = w['w'] == w['h'] or (w['h'] in ix and w['w'] in ix and R_[ix[w['h']]][ix[w['w']]])
+        rep = Replay.call({'op': 'wait_graph_step', **w, **extra})
         v['native'] = rep
         v['replayed'] = rep.get('violates')
 ck.functions += ['LockManager::try_lock', 'LockManager::release', 'LockManager::release_by_handle', 'LockManager::cleanup_expired', 'LockManager::lock_holder', 'KeyLock::is_expired']
